@@ -129,6 +129,8 @@ def run(ctx):
         except Exception as ex:
             import traceback
             viol.append(dict(case, kind="integrate/step raised", error=repr(ex)[:300], trace=traceback.format_exc()[-600:]))
+    import regress
+    evals += regress.run("C07", viol)
     for v in viol:
         v.setdefault("finding_class", None)
     out, seen = [], set()
